@@ -659,7 +659,10 @@ func (c *Conn) heartBeat(ctx context.Context) {
 		case error:
 			// TODO: should we do something here?
 		default:
-			panic(fmt.Sprintf("gocql: unknown frame in response to options: %T", resp))
+			// a frame that is no answer to OPTIONS: count it as a failed heartbeat
+			// instead of crashing the process from this background goroutine
+			c.logger.Printf("gocql: unknown frame in response to options: %T", resp)
+			failures++
 		}
 	}
 }
